@@ -2,6 +2,7 @@ package main
 
 import (
 	"bytes"
+	"strings"
 	"fmt"
 	"unicode/utf8"
 
@@ -31,7 +32,9 @@ func c04Doc(w *W, s *parseSession, in []byte, harness string, cfgs []Cfg) {
 				bad, fp = "valid string document rejected: "+err.Error(), "rejected"
 			}
 		case verdict == ref.Valid:
-			docs, werr := walkDoc(pj, walkCombos[0])
+			// read through long-lived Root/Array/Object destinations (the session reuses one
+			// ParsedJson for every document, in both string modes)
+			docs, werr := walkDoc(pj, walkCombos[4])
 			if werr != nil {
 				bad, fp = werr.Error(), "unreadable"
 			} else if got := docs[0].Render(); got != want {
@@ -327,6 +330,26 @@ func c04Body(w *W) {
 				in2 = append(in2, `z":1}`...)
 				c04Doc(w, s, in2, "S8-backslash-runs-key", allCfgs())
 			}
+		}
+	}
+	// S9: escapes x index-buffer flush x alignment (the odd-backslash carry across a flush)
+	w.Note("S9: arrays of 500 and 1500 strings with escaped quotes / escaped backslashes before the closing quote, preceded by 0..63 bytes of padding, so that the backslash of an escape becomes the last byte of the block at which an index buffer is flushed; all four configs")
+	elems := []string{`"a\"b"`, `"c\\"`, `"\\\"q"`, `{"k\"":"v\\"}`, `"plain"`}
+	for _, count := range []int{500, 1500} {
+		for pad := 0; pad < 64; pad++ {
+			w.res.States++
+			if !w.Mine() || w.Expired() {
+				continue
+			}
+			var b bytes.Buffer
+			b.WriteString(`["` + strings.Repeat("p", pad) + `"`)
+			for i := 0; i < count; i++ {
+				b.WriteByte(',')
+				b.WriteString(elems[(i*7+i/5)%len(elems)])
+			}
+			b.WriteByte(']')
+			w.res.Transitions++
+			c04Doc(w, s, b.Bytes(), "S9-escape-at-flush", allCfgs())
 		}
 	}
 	w.Sample(`S2 sample: ["𐀀","𐀁",…]; S7 sample: [   "abc€def"]`)
